@@ -19,14 +19,14 @@ INFO = {
 }
 
 
-def h_offline(f, N, kind='offline', ext=True, times='origin', twice=0, period=None):
+def h_offline(f, N, kind='offline', ext=True, times='origin', twice=0, period=None, late=False):
     f = T(f)
     vs = sorted(variables(f))
     uf = refsem.has(f, {'sqrt', 'exp', 'ln', 'pow', 'log'})
 
     def body(env):
         A = env.A
-        s = dt.make_spec(kind, 'out = ' + text(f), vs, period=(tuple(period) + (0.1,)) if period else None, f=f)
+        s = dt.make_spec(kind, 'out = ' + text(f), vs, period=(tuple(period) + (0.1,)) if period else None, f=f, config_after_parse=late)
         w = dt.trace(env, vs, N, ext=ext and not uf)
         if uf:
             for v in vs:
@@ -116,7 +116,7 @@ def obligations(tier, rng):
     for i, g in enumerate(pool.ALL):
         for N in (2, 6):
             out.append(ob('C01', 'offline', 'pool/%s/P=%s/unit=%s/N=%d' % (g[1], g[3] or '-', g[4] or '-', N), f=g, N=N, kind='offline' if (i + N) % 3 else 'combined',
-                          ext=True, times='fixed'))
+                          ext=True, times='fixed', late=(N == 6 and i % 2 == 1)))       # every other case: unit and period set after parse()
     # depth 2 on traces that are shorter than (or exactly as long as) the bound of the inner future operator
     inner_fut = [('eventually_t', X, 0, 3), ('always_t', X, 1, 3), ('until_t', X, Y, 0, 3), ('unless_t', X, Y, 1, 3), ('eventually_t', X, 2, 2)]
     outer_all = ops_un + list(refsem.UNT) + ops_bin + list(refsem.BINT)
